@@ -55,8 +55,9 @@ type lbSCEv struct {
 // lbAddrSet is one address list given to a SubConn (NewSubConn or
 // UpdateAddresses); seq is taken before the call.
 type lbAddrSet struct {
-	seq   uint64
-	addrs []string
+	seq     uint64
+	doneSeq uint64 // after the call returned (0: it has not)
+	addrs   []string
 }
 
 type lbSC struct {
@@ -91,6 +92,25 @@ func lbHasAddr(l []string, a string) bool {
 func (s *lbSC) had(addr string, before uint64) bool {
 	for _, h := range s.addrHist {
 		if h.seq < before && lbHasAddr(h.addrs, addr) {
+			return true
+		}
+	}
+	return false
+}
+
+// listed: addr was in a list that may have been the SubConn's current one at
+// some point between the events from and to: a list is current from the start
+// of the call that sets it until the call that replaces it has returned.
+func (s *lbSC) listed(addr string, from, to uint64) bool {
+	for k, h := range s.addrHist {
+		if h.seq >= to {
+			break
+		}
+		end := ^uint64(0)
+		if k+1 < len(s.addrHist) && s.addrHist[k+1].doneSeq != 0 {
+			end = s.addrHist[k+1].doneSeq
+		}
+		if end > from && lbHasAddr(h.addrs, addr) {
 			return true
 		}
 	}
@@ -158,7 +178,7 @@ func (i *lbInst) cb() uint64 {
 func (i *lbInst) newSC(addr string) *lbSC {
 	x := i.x
 	s := &lbSC{id: len(x.scs), inst: i, addr: addr, state: connectivity.Idle, createdSeq: x.e.Next()}
-	s.addrHist = []lbAddrSet{{seq: s.createdSeq, addrs: []string{addr}}}
+	s.addrHist = []lbAddrSet{{seq: s.createdSeq, doneSeq: s.createdSeq, addrs: []string{addr}}}
 	s.hc = x.cfg.Health != nil && i.cfg.HCMask>>(uint(i.created)%8)&1 == 1
 	i.created++
 	sc, err := i.cc.NewSubConn([]resolver.Address{{Addr: addr}}, balancer.NewSubConnOptions{HealthCheckEnabled: s.hc, StateListener: func(st balancer.SubConnState) { i.onState(s, st) }})
@@ -209,10 +229,15 @@ func (i *lbInst) updateAddrs(s *lbSC, idx []int, empty, viaCC bool) {
 	}
 	x.e.Logf("lb sc%d update addresses %v (notified %v, shut=%v, via cc=%v)", s.id, list, s.state, s.shutCalled, viaCC)
 	x.e.Probe("update_addresses_in_" + s.state.String())
+	live := !s.shutCalled
+	k := len(s.addrHist) - 1
 	if viaCC {
 		i.cc.UpdateAddresses(s.sc, as)
 	} else {
 		s.sc.UpdateAddresses(as)
+	}
+	if live {
+		s.addrHist[k].doneSeq = x.e.Next()
 	}
 }
 
